@@ -298,3 +298,50 @@ def dom_leaf_atoms(f, inst):
                 e = _ir.expr(f, t.args[0], 8)
                 leaf_atoms(e if e[0] in ("icmp", "bin", "select") else ("icmp", "ne", e, ("c", 0)), k == 0, out)
     return out
+
+
+def shared(fn, new_rid, keep=None):
+    """run another property's rule under this property's rule id (same analysis, necessary for both properties);
+    keep(result) filters the instances that matter here"""
+    def run(ctx, rep):
+        n0 = len(rep.results)
+        try:
+            fn(ctx, rep)
+        finally:
+            out = []
+            for r in rep.results[n0:]:
+                if keep is not None and not keep(r):
+                    continue
+                r = dict(r)
+                r["key"] = r["key"].replace(r["rule"], new_rid)
+                r["rule"] = new_rid
+                out.append(r)
+            del rep.results[n0:]
+            rep.results += out
+        require(out, "shared rule %s produced no instance" % new_rid)
+    return run
+
+
+def ap_offset(mod, ap):
+    """byte offset of an access path relative to its base, from the struct layouts of the module; None when a step has an
+    unknown index or the layout is not recorded"""
+    import re as _re
+    off = 0
+    for st in ap.get("steps", []):
+        mo = _re.match(r"i8\[(-?\d+)\]$", st)
+        if mo:
+            off += int(mo.group(1))
+            continue
+        mo = _re.match(r"%?(?:struct\.)?([\w.]+?)\.([\w<>]*)$", st)
+        if not mo:
+            return None
+        sname, fld = mo.group(1), mo.group(2)
+        lay = mod.structs.get(sname)
+        if lay is None:
+            return None
+        want = "" if fld == "<anon>" else fld
+        hit = [f for f in lay["fields"] if f[0] == want]
+        if len(hit) != 1:
+            return None
+        off += hit[0][1]
+    return off
